@@ -150,6 +150,10 @@ func Fixed() []Named {
 		Named{"reader-strings", strings.NewReader("seekable")},
 		Named{"map-any-any", map[any]any{"a": 1}}, Named{"map-any-any-intkey", map[any]any{1: "x"}},
 		Named{"map-string-any-holding-map-any-any", map[string]any{"m": map[any]any{"k": "v"}}}, Named{"anyslice-holding-map-any-any", []any{map[any]any{"k": 2}}},
+		// lists of the library's own Result type (a value like any other outside a batch node) and fixed-size arrays (single values, not lists)
+		Named{"result-slice", []flyt.Result{flyt.NewResult("a"), flyt.NewResult(2), flyt.NewResult(nil)}}, Named{"result-slice-empty", []flyt.Result{}},
+		Named{"result-slice-with-error", []flyt.Result{flyt.NewResult(1), flyt.NewErrorResult(fmt.Errorf("an item that failed earlier"))}},
+		Named{"array-int-3", [3]int{1, 2, 3}}, Named{"array-byte-16", [16]byte{1, 2, 3}}, Named{"array-string-0", [0]string{}}, Named{"array-any-2", [2]any{"x", 1}},
 	)
 	return out
 }
